@@ -19,4 +19,24 @@ static inline int nearest_face(V3 p, double band) {
     for (int f = 0; f < 20; f++) { LatLng g = {VERIF_FACE_CENTER[f][0], VERIF_FACE_CENTER[f][1]}; double d = v3_dot(p, v3_of(&g)); if (d > b1) { b2 = b1; b1 = d; best = f; } else if (d > b2) b2 = d; }
     return (b1 - b2 < band) ? -1 : best;
 }
+/* spherical triangle area, exact formula stable for tiny triangles: 2*atan2(|a.(b x c)|, 1 + a.b + b.c + c.a) */
+static inline long double tri_area_l(V3 a, V3 b, V3 c) {
+    long double ax = a.x, ay = a.y, az = a.z, bx = b.x, by = b.y, bz = b.z, cx = c.x, cy = c.y, cz = c.z;
+    long double det = ax * (by * cz - bz * cy) - ay * (bx * cz - bz * cx) + az * (bx * cy - by * cx);
+    long double den = 1 + (ax * bx + ay * by + az * bz) + (bx * cx + by * cy + bz * cz) + (cx * ax + cy * ay + cz * az);
+    return 2 * atan2l(fabsl(det), den);
+}
+/* signed: positive when a,b,c are counter-clockwise seen from outside */
+static inline long double tri_det_l(V3 a, V3 b, V3 c) {
+    long double ax = a.x, ay = a.y, az = a.z, bx = b.x, by = b.y, bz = b.z, cx = c.x, cy = c.y, cz = c.z;
+    return ax * (by * cz - bz * cy) - ay * (bx * cz - bz * cx) + az * (bx * cy - by * cx);
+}
+/* point clustering: ids for coordinates that coincide within tol (radians, chord) */
+typedef struct { V3 p[256]; int n; double tol; } VidSet;
+static inline int vid_of(VidSet *s, const LatLng *g) {
+    V3 v = v3_of(g);
+    for (int i = 0; i < s->n; i++) { double dx = v.x - s->p[i].x, dy = v.y - s->p[i].y, dz = v.z - s->p[i].z; if (sqrt(dx * dx + dy * dy + dz * dz) <= s->tol) return i + 1; }
+    if (s->n < 256) s->p[s->n++] = v;
+    return s->n;
+}
 #endif
